@@ -587,13 +587,13 @@ def jobs_for(pid, tier):
         "C01": shaped(core) + tmap + tbig,
         "C07": shaped(setcore + both("setbulk", ["bulk"], mode="set", consts={"MaxExtra": 1}, bigconsts={"Vers": [0]})) + tset,
         "C09": both("cursor", ["cursor"]) + setcore + tmap + tset,
-        "C10": both("cursor", ["cursor"]) + core + setcore + tmap + tset,
+        "C10": shaped(both("cursor", ["cursor"]) + core) + setcore + tmap + tset,
         "C11": both("entry", ["entry"]) + tmap,
         "C12": core + both("entry", ["entry"]) + setcore + tmap + tset,
         "C13": prof(both("disjoint", ["disjoint"], consts={"Vers": [0], "MaxKs": 3}, bigconsts={"MaxKs": 4}), "asan", "miri") + tmap + tbig,
         "C16": both("bulk", ["bulk"], bigconsts={"MaxExtra": 1}) + both("setbulk", ["bulk"], mode="set", consts={"MaxExtra": 1}, bigconsts={"Vers": [0]}),
         "C18": both("unchecked", ["unchecked"], consts={"MaxKs": 3}, bigconsts={"Vers": [0], "MaxKs": 4}) + tmap + tbig,
-        "C19": both("fmt", ["fmt", "cursor"]) + core + setcore
+        "C19": both("fmt", ["fmt", "cursor"]) + core + setcore + pairs("alg", ["algebra"], "set", qcaps[:2] if q else tcaps[:6])
                + ([J("fmt-n3", ["fmt"], consts={"Caps": [3], "Vers": [0], "Vals": [0]}), J("setfmt-n3", ["fmt"], mode="set", consts={"Caps": [3], "Vers": [0]})] if q else []),
         "C08": pairs("alg", ["algebra"], "set", qcaps if q else tcaps),
         "C14": tbigset + pairs("eqset", ["eq"], "set", qcaps if q else tcaps) + pairs("eqmap", ["eq"], "map", qcaps[:2] if q else tcaps[:9]),
@@ -615,7 +615,7 @@ def jobs_for(pid, tier):
                     + [dict(j, sweep="adversarial", max_leaves=(64 if q else 512)) for j in pairs("algadv", ["algebra", "eq"], "set", qcaps[:2] if q else tcaps[:6])], "asan"),
         "C05": core + both("ecub", ["entry", "cursor", "unchecked", "bulk"], consts={"Vers": [0]}, bigconsts={"MaxExtra": 1}) + setcore
                + both("setbulk", ["bulk"], mode="set", consts={"MaxExtra": 1}, bigconsts={"Vers": [0]}) + tmap + tset,
-        "C02": core + prof(both("cursor", ["cursor"]), "miri") + both("eubc", ["entry", "unchecked", "bulk", "clone"], consts={"Vers": [0]}, bigconsts={"MaxExtra": 1})
+        "C02": shaped(core) + prof(shaped(both("cursor", ["cursor"])), "miri") + both("eubc", ["entry", "unchecked", "bulk", "clone"], consts={"Vers": [0]}, bigconsts={"MaxExtra": 1})
                + setcore + both("setbc", ["bulk", "clone"], mode="set", consts={"MaxExtra": 1}, bigconsts={"Vers": [0]}) + tmap + tset,
         "C03": prof(shaped(core) + both("entry", ["entry"]) + shaped(both("bulk", ["bulk"], bigconsts={"MaxExtra": 1})) + shaped(setcore)
                     + shaped(both("setbulk", ["bulk"], mode="set", consts={"MaxExtra": 1}, bigconsts={"Vers": [0]})), "asan", "miri"),
